@@ -15,16 +15,17 @@ THEOREMS = [
     ("EG.props.C20", "C20_order_independent"),
     ("EG.props.C20", "C20_untouched_when_unchanged"),
     ("EG.props.C20", "C20_model_is_per_name"),
+    ("EG.props.C20", "C20_late_watcher_equals_snapshot"),
 ]
 HARNESSES = [
     dict(name="sup", pkg="pkg/supervisor", files=["harness/supervisor/zz_verif_c20_test.go"],
-         run="TestVerifC20", groups=["sup"], timeout=600, share=0.7),
+         run="TestVerifC20", groups=["sup", "join"], timeout=600, share=0.7),
     dict(name="tc", pkg="pkg/object/rawconfigtrafficcontroller", pkgname="rawconfigtrafficcontroller",
         files=["harness/rawconfigtrafficcontroller/zz_verif_c20_test.go"],
         run="TestVerifC20TC", groups=["tc"], timeout=600, share=0.3),
 ]
-GROUPS = {"sup": "check_sup", "tc": "check_tc"}
-EXPLAIN = {"sup": "explain_sup", "tc": "explain_tc"}
+GROUPS = {"sup": "check_sup", "tc": "check_tc", "join": "check_join"}
+EXPLAIN = {"sup": "explain_sup", "tc": "explain_tc", "join": "explain_join"}
 CASES = {"quick": 500, "thorough": 12000}
 RULE = ("cases: snapshot sequences over 1-4 names x 7 kinds (2 business controllers, 2 traffic gates, 2 pipeline-category kinds, "
         "1 unwatched system kind) x 3 contents (appear, change, unchanged, disappear, reappear, kind change inside and across "
@@ -74,7 +75,8 @@ def coq_header(kf_open):
     return ("From EG.lib Require Import Base.\nFrom EG.model Require Import Registry RegistryCheck.\nOpen Scope N_scope.\n"
             "Definition pinned : quirks := {| q_kind_change_as_update := %s |}.\n"
             "Definition check_sup := check_with pinned.\nDefinition check_tc := check_with pinned.\n"
-            "Definition explain_sup := explain_with pinned.\nDefinition explain_tc := explain_with pinned.\n" % B(on))
+            "Definition explain_sup := explain_with pinned.\nDefinition explain_tc := explain_with pinned.\n"
+            "Definition check_join := check_join_with pinned.\nDefinition explain_join := explain_join_with pinned.\n" % B(on))
 
 
 def _spec(cats, kind, v):
@@ -106,9 +108,28 @@ def _rows(cats, rows):
     return L([T(_n(r[0]), _spec(cats, r[1], r[2])) for r in rows or []])
 
 
+def _evrows(cats, rows):
+    return L([T(N(r[0]), _n(r[1]), _spec(cats, r[2], r[3])) for r in rows or []])
+
+
+def _encode_join(c, cats):
+    i, o = c["in"], c["obs"]
+    steps = L([L([T(N(e[0]), _spec(cats, e[1], e[2])) for e in st or []]) for st in i["steps"] or []])
+    return Rec(
+        j_names=L([N(x) for x in range(int(i["names"]))]),
+        j_steps=steps,
+        j_join="%d%%nat" % min(int(i["join"]), len(i["steps"] or [])),
+        j_w=N(i["w"]),
+        j_sched=N(zlib.crc32(str(c.get("id")).encode()) % 32),
+        jo_first=_evrows(cats, o.get("first")),
+        jo_steps=L([Rec(jo_ev=_evrows(cats, s.get("ev")), jo_ents=_rows(cats, s.get("ents"))) for s in o.get("steps") or []]))
+
+
 def encode(c):
     i, o = c["in"], c["obs"]
     cats = {int(k): int(ct) for k, ct in i["kinds"]}
+    if c["grp"] == "join":
+        return _encode_join(c, cats)
     steps = L([L([T(N(e[0]), _spec(cats, e[1], e[2])) for e in st or []]) for st in i["steps"] or []])
     obs = []
     for so in o.get("steps") or []:
@@ -145,7 +166,13 @@ def distribution(cases):
     for c in cases:
         i, o = c["in"], c["obs"]
         d["groups"][c["grp"]] = d["groups"].get(c["grp"], 0) + 1
-        m = "direct" if i.get("mode", 0) == 0 and c["grp"] == "sup" else "e2e"
+        m = "join" if c["grp"] == "join" else ("direct" if i.get("mode", 0) == 0 and c["grp"] == "sup" else "e2e")
+        if c["grp"] == "join":
+            d.setdefault("join", dict(parked=0, overlap_requested=0, snapshot_inside_window=0, traffic_filter=0))
+            d["join"]["parked"] += bool(o.get("parked"))
+            d["join"]["overlap_requested"] += bool(i.get("overlap"))
+            d["join"]["snapshot_inside_window"] += bool(o.get("inwindow"))
+            d["join"]["traffic_filter"] += i.get("w") == 1
         d["modes"][m] = d["modes"].get(m, 0) + 1
         d["names"][str(i["names"])] = d["names"].get(str(i["names"]), 0) + 1
         n = len(i["steps"] or [])
@@ -171,6 +198,8 @@ def shrink_candidates(inp, grp):
             cand = dict(inp)
             cand["steps"] = steps[:k] + steps[k + 1:]
             cand["panics"] = [[t - (t > k), op, n] for t, op, n in inp.get("panics") or [] if t != k]
+            if grp == "join":
+                cand["join"] = int(inp.get("join", 0)) - (k < int(inp.get("join", 0)))
             yield cand
     for name in range(int(inp["names"])):
         if any(e[0] == name for st in steps for e in st or []):
